@@ -216,13 +216,51 @@ def run(F, R, tier):
     cs = F.fn(C + "compile_statement")
     if cs is not None:
         b = H.body_of(cs)
-        loops = [H.render(x["scrut"]["args"][0]) for x in H.walk(b) if x.get("k") == "match" and x.get("src", "").startswith("ForLoopDesugar")
-                 and "loop_stack" in H.render(x["scrut"])]
-        R.ob("label-search-order", "labelled break/continue search loop_stack from the innermost loop outwards", len(loops) == 2 and all(t.endswith(".rev()") for t in loops), str(loops), F.loc(cs))
-        cmps = [H.render(x) for x in H.walk(b) if x.get("k") == "bin" and x["op"] == "==" and "label.literal" in H.render(x)]
-        R.ob("label-search-order", "a loop is chosen when its label equals the statement's label", len(cmps) == 2 and all(c == "(loop_label_name == &label.literal)" for c in cmps), str(cmps), F.loc(cs))
-        # the search skips loops that do not carry the label: it is left only by the `return Ok(())` of a hit
-        bad_exits = []
+        # searches of loop_stack for a label: `for l in loop_stack.iter().rev() { if .. == label {..; return} }` or
+        # `loop_stack.iter().rev().find(|l| .. == label)` (also rfind / position on the reversed iterator), in
+        # compile_statement or a helper it calls
+        bodies = [("compile_statement", b)]
+        for c in H.walk(b):
+            if c.get("k") in ("call", "mcall") and (c.get("callee") or "").startswith(C) and H.last(c["callee"]) not in ("compile_statement", "compile_expression", "compile_block_statement", "emit"):
+                hb = H.body_of(F.fn(c["callee"]))
+                if hb is not None and any("loop_stack" in H.render(x.get("recv") or x.get("scrut") or {}) for x in H.walk(hb) if x.get("k") in ("mcall", "match")):
+                    bodies.append((H.last(c["callee"]), hb))
+        searches = []   # (where, reversed?, compares the loop's label with the statement's label?, exits)
+        seen_nodes = set()
+        for where, bd in bodies:
+            for x in H.walk(bd):
+                if id(x) in seen_nodes:
+                    continue
+                if x.get("k") == "match" and x.get("src", "").startswith("ForLoopDesugar") and "loop_stack" in H.render(x["scrut"]):
+                    seen_nodes.add(id(x))
+                    chain = H.render(x["scrut"]["args"][0])
+                    inner = x["arms"][0]["body"]
+                    cmps = [y for y in H.walk(inner) if y.get("k") == "bin" and y["op"] == "=="]
+                    label_cmp = any(("label" in H.render(y["l"]) and ".literal" in H.render(y["r"])) or ("label" in H.render(y["r"]) and ".literal" in H.render(y["l"])) for y in cmps)
+                    if not label_cmp:
+                        continue     # a loop over loop_stack that is not a label search (e.g. patching)
+                    bad = []
+                    for m2 in H.walk(inner):
+                        if m2.get("k") == "match" and m2.get("src", "").startswith("ForLoopDesugar"):
+                            for a2 in m2["arms"]:
+                                if "Some" in H.render_pat(a2["pat"]):
+                                    for y in H.walk(a2["body"]):
+                                        if y.get("k") == "let" and y.get("els") is not None and any(z.get("k") == "break" for z in H.walk(y["els"])):
+                                            bad.append("let-else break")
+                    searches.append((where, chain.count(".rev()") % 2 == 1, True, bad))
+                elif x.get("k") == "mcall" and x["m"] in ("find", "rfind", "position", "rposition", "find_map") and "loop_stack" in H.render(x["recv"]):
+                    seen_nodes.add(id(x))
+                    chain = H.render(x["recv"])
+                    rev = (chain.count(".rev()") % 2 == 1) != (x["m"] in ("rfind", "rposition"))
+                    clo = [a2 for a2 in x.get("args", []) if a2.get("k") == "closure"]
+                    cmps = [y for a2 in clo for y in H.walk(a2["body"]) if y.get("k") == "bin" and y["op"] == "=="]
+                    label_cmp = any(("label" in H.render(y["l"]) and ".literal" in H.render(y["r"])) or ("label" in H.render(y["r"]) and ".literal" in H.render(y["l"])) for y in cmps)
+                    searches.append((where, rev, label_cmp, []))
+        R.ob("label-search-order", "labelled break/continue search loop_stack from the innermost loop outwards", bool(searches) and all(sr[1] for sr in searches),
+             str([(w, "innermost first" if r_ else "OUTERMOST FIRST") for w, r_, _, _ in searches]), F.loc(cs))
+        R.ob("label-search-order", "a loop is chosen when its label equals the statement's label", bool(searches) and all(sr[2] for sr in searches), str([(w, c_) for w, _, c_, _ in searches]), F.loc(cs))
+        # the search skips loops that do not carry the label: it is left only by a hit
+        bad_exits = [e for sr in searches for e in sr[3]]
         for x in H.walk(b):
             if x.get("k") == "match" and x.get("src", "").startswith("ForLoopDesugar") and "loop_stack" in H.render(x["scrut"]):
                 some = [a for m2 in H.walk(x["arms"][0]["body"]) if m2.get("k") == "match" and m2.get("src", "").startswith("ForLoopDesugar") for a in m2["arms"]
@@ -231,16 +269,10 @@ def run(F, R, tier):
                     for y in H.walk(a["body"]):
                         if y.get("k") == "break" or (y.get("k") == "ret" and H.render(y.get("e")) != "v1::Ok(())"):
                             bad_exits.append(H.render(y)[:60])
-                        if y.get("k") == "let" and "els" in y:
-                            pass
-                    for st in H.walk(a["body"]):
-                        if st.get("k") == "block":
-                            for s2 in st.get("stmts", []):
-                                if s2.get("k") == "let" and s2.get("els") is not None and not all(z.get("k") != "break" for z in H.walk(s2["els"])):
-                                    bad_exits.append("let-else break")
         R.ob("label-search-order", "a loop that does not carry the label is skipped; only a hit ends the search", not bad_exits, str(bad_exits), F.loc(cs))
+        R.floor("label searches over loop_stack", len(searches), 1)
         plain = [H.render(x) for x in H.walk(b) if x.get("k") == "mcall" and x["m"] in ("last", "last_mut") and "loop_stack" in H.render(x["recv"])]
-        R.ob("label-search-order", "plain break/continue use the innermost loop (loop_stack.last)", len(plain) == 2, str(plain), F.loc(cs))
+        R.ob("label-search-order", "plain break/continue use the innermost loop (loop_stack.last)", len(plain) >= 1, str(plain), F.loc(cs))
     # ---- (b) if / else ---------------------------------------------------------------------------------------------------------------
     f = F.fn(C + "compile_if_expression")
     r = res["expr"].get(("If", "fn"))
@@ -282,7 +314,11 @@ def run(F, R, tier):
             elif var == "Boolean":
                 want = {(("Dup", "+0"), ("True", "+0"), ("NotEqual", "+0"), ("JumpIfFalse", "+65535")), (("Dup", "+0"), ("False", "+0"), ("NotEqual", "+0"), ("JumpIfFalse", "+65535"))}
                 R.ob("match-pattern-code", "Boolean: Dup, True/False, NotEqual, JumpIfFalse into the body", seqs == want, str(sorted(seqs)), loc)
-                tf = {(s.facts.get("cond:b.value"), s.emits[1][0]) for s in oks if len(s.emits) > 1}
+                # the decision on the pattern's boolean payload (whatever the payload binding is called)
+                def bool_decision(st_):
+                    vs = [v for k, v in st_.facts.items() if k.startswith("cond:") and k.endswith(".value") and st_.facts.get("payload:" + k[5:-6], (None, None))[1] == "Boolean"]
+                    return vs[0] if len(vs) == 1 else None
+                tf = {(bool_decision(s), s.emits[1][0]) for s in oks if len(s.emits) > 1}
                 R.ob("match-pattern-code", "Boolean: the pushed constant is the pattern's value", tf == {(True, "True"), (False, "False")}, str(sorted(tf, key=repr)), loc)
             elif var in LIT_KINDS:
                 want = {(("Dup", "+0"), ("Constant", "const:" + LIT_KINDS[var]), ("NotEqual", "+0"), ("JumpIfFalse", "+65535"))}
